@@ -31,6 +31,8 @@ type ParamLab struct {
 	engine.Base
 	cfg LabConfig
 	n   int
+	// outcomes of the canonical scenario under the defaults, per module (computed once a run)
+	canonD map[string][]outcome
 }
 
 type LabConfig struct {
@@ -56,7 +58,7 @@ func (m *ParamLab) Name() string { return "paramlab" }
 func (m *ParamLab) Weight() int  { return 0 }
 
 func (m *ParamLab) Configure(w *engine.World, r *engine.Rand) any {
-	return LabConfig{PLab: 0.15 + 0.3*r.Float(), PGenesis: 0.1, Max: 12 + r.Intn(20), Ops: 3 + r.Intn(8)}
+	return LabConfig{PLab: 0.15 + 0.3*r.Float(), PGenesis: 0.2, Max: 12 + r.Intn(20), Ops: 3 + r.Intn(8)}
 }
 
 func (m *ParamLab) LoadConfig(w *engine.World, raw json.RawMessage) {
@@ -73,7 +75,7 @@ var labWorkload = map[string][]string{
 }
 
 var decKinds = []string{"absent", "0", "0.000000000000000001", "0.003", "0.5", "0.999999999999999999", "1", "1.000000000000000001", "2", "-0.000000000000000001", "-1", "1000000000000000000000000000000"}
-var intKinds = []string{"absent", "0", "1", "2", "5000", "1000000000000", "340282366920938463463374607431768211456", "-1"}
+var intKinds = []string{"absent", "0", "1", "2", "5000", "1000000000000", "340282366920938463463374607431768211456", "-1", "1809251394333065553493296640760748560207343510400633813116524750123642650624"}
 
 func pick(r *engine.Rand, xs []string) string { return xs[r.Intn(len(xs))] }
 
@@ -630,6 +632,9 @@ func (m *ParamLab) genesisArm(w *engine.World, c *labCase, valid bool, verr erro
 	w.Hit("C16.genesis_imports")
 	if err == nil && !valid {
 		w.Violate("C16", "invalid-stored/"+c.module+"/genesis", "%s parameters that the module's own Validate rejects (%v) were accepted by genesis import", c.module, verr)
+	}
+	if err == nil && valid {
+		m.canonicalArm(w, c, n)
 	}
 }
 
